@@ -59,6 +59,34 @@ def want_of(t):
     return None
 
 
+def threshold_witnesses(traces):
+    """Per power set: the tallies of well-formed commits the specification rejects for lack of power (vcPower) and
+    accepts, and - where the total is == 2 (mod 3) - the tallies lying in the gap between 2*floor(T/3)+1 and
+    'more than 2/3' (a threshold computed as T/3*2+1 accepts exactly those)."""
+    out = {}
+    for t in traces:
+        w = want_of(t)
+        if w not in ('vcPower', 'ok') or t['cfg']['Last'] == 0:
+            continue
+        b = t['init']['blk']
+        if b.get('csize') != 'ok':
+            continue
+        p = t['cfg']['Power']
+        tally = sum(p[i] for i, c in enumerate(b['slots']) if c in ('good', 'wrongRound'))
+        total = sum(p)
+        d = out.setdefault(t['cfg']['config'], {'power': p, 'total': total, 'rejected': set(), 'accepted': set()})
+        d['rejected' if w == 'vcPower' else 'accepted'].add(tally)
+    res = {}
+    for k, d in out.items():
+        total = d['total']
+        gap = sorted(x for x in d['rejected'] if x >= (total // 3) * 2 + 1)
+        res[k] = {'power': d['power'], 'total': total, 'total_mod_3': total % 3,
+                  'largest_rejected_tally': max(d['rejected']) if d['rejected'] else None,
+                  'smallest_accepted_tally': min(d['accepted']) if d['accepted'] else None,
+                  'rejected_tallies_a_T/3*2+1_threshold_would_accept': gap}
+    return res
+
+
 def byz_sample(ctx, traces, n_single, n_multi):
     """Blocks to be proposed by a Byzantine proposer: the untouched block and the other blocks the specification
     accepts one per system; rejected blocks (single malformations first, then pairs) three per system - the
@@ -177,6 +205,17 @@ def run(ctx, replay=None):
     if not traces:
         raise engine.Inconclusive('no behaviours obtained from TLC')
 
+    tw = threshold_witnesses(traces)
+    ctx.cov['threshold_boundaries'] = tw
+    for k, d in tw.items():
+        lo, hi, total = d['largest_rejected_tally'], d['smallest_accepted_tally'], d['total']
+        if lo is None or hi is None or 3 * hi <= 2 * total or 3 * lo > 2 * total:
+            ctx.inconclusive.append('power set %s of config %s: the explored commits do not include both sides of the 2/3 boundary' % (d['power'], k))
+        if total % 3 == 2 and not d['rejected_tallies_a_T/3*2+1_threshold_would_accept']:
+            ctx.inconclusive.append('power set %s (total == 2 mod 3) of config %s: no commit in the gap between T/3*2+1 and > 2/3' % (d['power'], k))
+    if not any(d['total_mod_3'] == 2 for d in tw.values()):
+        ctx.inconclusive.append('no power set with total == 2 (mod 3) explored')
+
     byz, n_byz_blocks = byz_sample(ctx, traces, 14 if quick else 84, 7 if quick else 88)
 
     # binding self-test: a corrupted expectation must be rejected by the driver
@@ -239,7 +278,7 @@ def run(ctx, replay=None):
     ctx.assumptions += [
         'ed25519 signatures are unforgeable; sign-bytes identify (chain id, height, round, type, block id)',
         'hash functions are collision free (a wrong hash never equals the right one)',
-        'small scope: 3-4 validators, unequal powers, <= 2 (3) simultaneous malformations from the honest block plus '
+        'small scope: 2-5 validators, equal and unequal powers with totals == 0, 1 and 2 (mod 3), <= 2 (3) simultaneous malformations from the honest block plus '
         'every combination of slot classes over the whole commit',
         'block time is not part of the property (the code does not check it: TODO in Block.ValidateBasic)',
         'validator-set changes between heights are covered by C14/C16, here the set is constant']
